@@ -16,7 +16,8 @@ LEVEL = ("Static structural conditions of schedule-independent determinism: no a
          "(R5); every computed draw is recorded exactly once whatever the timing of pause/resume commands (R6, shared with C12-R2); the worker-thread count reaches nothing but the thread-pool size (R7). No order-sensitive iteration over default-hasher maps on the record / finalize / inspect paths (R4, shared with C14-R3): recorded values cannot depend on the per-process hash seed. Bit-identity of "
          "floating-point results as an observed fact is not decided."
          " Added: no order-dependent rayon operation (sum/reduce/fold/find_any/current_num_threads) in code reachable from a chain (R1)."
-         " Added (round 4): no mutating Chain operation in the worker is conditional on storage / progress state (R9).")
+         " Added (round 4): no mutating Chain operation in the worker is conditional on storage / progress state (R9)."
+         " Added (round 5): per-dimension event counts are combined by component-wise maxima over the chains (R10 = C15-R6 analysis); a first-wins insert keyed by a non-key component inside a hash-ordered loop is order-sensitive (R4).")
 EXPLANATION = ("Who-may-call over every MIR call site of the library crates against a table of ambient nondeterminism sources, static-item inventory, "
                "value-provenance (def-use trees) of RNG constructors and stream selectors, closure-capture inventory by type class; each zero-expected "
                "matcher is exercised on the positive-control crate fixtures/positive on every run.")
